@@ -99,6 +99,9 @@ type isoWorld struct {
 	ks     oidc.KeySet
 	ksDown atomic.Bool
 	ksTok  map[string]string
+	// an issuer function value that several provider constructions share, and the provider built from it first
+	sharedIssuerFn func(bool) (op.IssuerFromRequest, error)
+	provShared     http.Handler
 	// two providers configured with the same absolute UserFormURL
 	provUF [2]http.Handler
 	// a relying party with a JWT-profile signer, and endpoint parameters the caller owns
@@ -313,6 +316,12 @@ func isoSetup() {
 	if iso.provBroken, _, err = opdrv.BuildProvider(iso.storeBroken, opdrv.DefaultCfg("P")); err != nil {
 		panic(err)
 	}
+	iso.sharedIssuerFn = op.IssuerFromHost("")
+	if ps, err := op.NewProvider(&op.Config{CryptoKey: opdrv.CryptoKey}, iso.store, iso.sharedIssuerFn); err == nil {
+		iso.provShared = ps
+	} else {
+		panic(err)
+	}
 	for i := range iso.provUF {
 		p, err := op.NewProvider(&op.Config{CryptoKey: opdrv.CryptoKey, DeviceAuthorization: op.DeviceAuthorizationConfig{Lifetime: 5 * time.Minute, PollInterval: 5 * time.Second,
 			UserFormURL: isoUserForm, UserCode: op.UserCodeBase20}}, modelstore.WithCaps(iso.store, true, true, true), op.StaticIssuer(opdrv.Issuer))
@@ -332,6 +341,19 @@ func isoSetup() {
 	iso.claims0 = append([]string(nil), op.DefaultSupportedClaims...)
 	iso.scopes0 = append([]string(nil), op.DefaultSupportedScopes...)
 	iso.pristine = isoSnapshot()
+}
+
+// sharedIssuerOf: the issuer the provider built first from the shared issuer function states for tenant A.
+func sharedIssuerOf() string {
+	rec := httptest.NewRecorder()
+	iso.provShared.ServeHTTP(rec, httptest.NewRequest(http.MethodGet, "https://"+isoTenantA+"/.well-known/openid-configuration", nil))
+	var doc struct {
+		Issuer string `json:"issuer"`
+	}
+	if json.Unmarshal(rec.Body.Bytes(), &doc) != nil {
+		return "no document"
+	}
+	return doc.Issuer
 }
 
 const isoUserForm = "https://login.example.test/device/form"
@@ -455,13 +477,14 @@ func isoSnapshot() map[string]string {
 	s["packageLevelErrors"] = pkgErrors()
 	s["userFormProviderB.verificationURI"] = ufVerificationURI(1)
 	s["callerEndpointParams"] = iso.params.Encode()
+	s["sharedIssuerFuncProvider.issuer"] = sharedIssuerOf()
 	return s
 }
 
 // isoHealthy: cells with a value that must hold at any time, whatever ran before
 var isoHealthy = map[string]string{"dynProvider.tenantA.ownHint": "accepted", "dynProvider.tenantB.ownHint": "accepted", "dynProvider.tenantB.foreignHint": "refused",
 	"providerA.tokenSignature": "ownKeys", "providerB.tokenSignature": "ownKeys",
-	"callerInterceptorChain": "first,second,third", "routerA2.interceptorOrder": "first>second>third", "sharedKeySet.servesFromCache": "ok", "userFormProviderB.verificationURI": isoUserForm}
+	"callerInterceptorChain": "first,second,third", "routerA2.interceptorOrder": "first>second>third", "sharedKeySet.servesFromCache": "ok", "userFormProviderB.verificationURI": isoUserForm, "sharedIssuerFuncProvider.issuer": "https://" + isoTenantA}
 
 func isoRestore() {
 	iso.params = url.Values{"resource": {"https://api.example.test"}}
@@ -587,6 +610,14 @@ func isoExec(name string) {
 		ksVerify(iso.ksTok["unknownKid"])
 	case name == "keySet.verify(noKid)":
 		ksVerify(iso.ksTok["noKid"])
+	case name == "op.NewProvider(sharedIssuerFunc)+WithAllowInsecure":
+		if p, err := op.NewProvider(&op.Config{CryptoKey: opdrv.CryptoKey}, iso.store, iso.sharedIssuerFn, op.WithAllowInsecure()); err == nil {
+			p.ServeHTTP(httptest.NewRecorder(), httptest.NewRequest(http.MethodGet, "http://"+isoTenantB+"/.well-known/openid-configuration", nil))
+		}
+	case name == "op.NewProvider(sharedIssuerFunc)":
+		if p, err := op.NewProvider(&op.Config{CryptoKey: opdrv.CryptoKey}, iso.store, iso.sharedIssuerFn); err == nil {
+			p.ServeHTTP(httptest.NewRecorder(), httptest.NewRequest(http.MethodGet, "https://"+isoTenantB+"/.well-known/openid-configuration", nil))
+		}
 	case name == "userFormProviderA.deviceAuthorization":
 		ufVerificationURI(0)
 	case name == "userFormProviderB.deviceAuthorization":
